@@ -839,6 +839,20 @@ impl Exec {
                     }
                 }
             }
+            ["ldepth", a, b] => {
+                // real recursion depth of diff(), observed through the crate's tracing spans
+                self.count("ldepth");
+                let (la, lb) = match (self.lists.get(&num(a)?), self.lists.get(&num(b)?)) {
+                    (Some(x), Some(y)) => (x.clone(), y.clone()),
+                    _ => return Err(bad()),
+                };
+                let (res, depth) = crate::depth::measure(|| diff_owned(&la, &lb));
+                match (res, depth) {
+                    (Some(_), Some(d)) => Ok(d.to_string()),
+                    (Some(_), None) => Err("bad-op depth needs the tracing feature (mst_all)".into()),
+                    (None, _) => Ok("panic".into()),
+                }
+            }
             ["diff", a, b] => {
                 self.count("diff");
                 self.diff_trees(num(a)?, num(b)?)
